@@ -10,7 +10,7 @@ TRUSTED = ['numpy RNG contract only: rng.shuffle permutes in place, rng.choice(B
 
 HEADER = """From Coq Require Import List Arith Bool.
 Import ListNotations.
-Require Import LD.Shuffle LD.ShuffleTie.
+Require Import LD.Shuffle LD.ShuffleTie LD.ShuffleFreeze.
 """
 
 
@@ -201,14 +201,19 @@ def run(tier):
         if sorted(oa) != list(range(n)) or sorted(ob) != list(range(n)):
             failures.append(dict(kind='history', summary=f'two local-shuffle iterators in flight: {oa} / {ob}', config=dict(kind='local2', n=n, B=B)))
     # (a') frozen copies of a reshuffle object in flight (explicit copy(freeze=True), and the implicit ones taken by catch / lazy apply
-    #      at the start of every iteration): later epochs of the same object must not disturb them
+    #      at the start of every iteration): later epochs of the same object must not disturb them.  Tied to ShuffleFreeze.v:
+    #      every draw of the generator is recorded and fed to the model as the oracle of FFreeze / RStart.
     nfrozen = 0
+    fcases, fmeta = [], []
     for _ in range(1500 if big else 200):
-        n = r.randint(0, 7)
         common.tick()
+        n = r.randint(0, 7)
         seed = r.randint(0, 10 ** 6)
-        rs = ld.new(list(range(n))).shuffle(True, rng=np.random.RandomState(seed))
+        rng = RecRng(seed)
+        rs = ld.new(list(range(n))).shuffle(True, rng=rng)
         kind = r.choice(['freeze', 'catch', 'lazyapply', 'freeze_catch'])
+        ops = []
+        ncopies = 0
         if kind == 'freeze':
             mk = lambda: iter(rs.copy(freeze=True))
         elif kind == 'catch':
@@ -220,27 +225,47 @@ def run(tier):
         else:
             c = rs.copy(freeze=True).catch()
             mk = lambda: iter(c)
+        for d in rng.draws:
+            ops.append('FFreeze ' + nl(d[1])); ncopies += 1
         k = r.choice([2, 2, 3])
         script = [i for i in range(k) for _ in range(n + 1)]
         r.shuffle(script)
         if r.random() < 0.3:
             script.insert(r.randint(0, len(script)), 'epoch')      # a complete epoch of the bare reshuffle object in between
-        its, outs = {}, {}
+        its, outs, mit = {}, {}, {}
         try:
             for st in script:
+                nd = len(rng.draws)
                 if st == 'epoch':
                     list(rs)
+                    for d in rng.draws[nd:]:
+                        ops.append('FSrc (RStart ' + nl(d[1]) + ')')
                     continue
                 if st not in its:
                     its[st] = mk(); outs[st] = []
+                    for d in rng.draws[nd:]:
+                        ops.append('FFreeze ' + nl(d[1])); ncopies += 1
+                    if kind == 'freeze_catch' or len(rng.draws) > nd:
+                        mit[st] = len(mit)
+                        ops.append(f'FStart {0 if kind == "freeze_catch" else ncopies - 1}%nat')
+                    nd = len(rng.draws)
                 try:
                     outs[st].append(int(next(its[st])))
                 except StopIteration:
                     pass
+                for d in rng.draws[nd:]:
+                    ops.append('FFreeze ' + nl(d[1])); ncopies += 1
+                if st not in mit:
+                    mit[st] = len(mit)
+                    ops.append(f'FStart {ncopies - 1}%nat')
+                ops.append(f'FNext {mit[st]}%nat')
         except Exception as e:
             failures.append(dict(kind='history', summary=f'{kind} over reshuffle n={n} seed={seed} script={script}: raised {type(e).__name__}: {e}', config=dict(kind='frozen', n=n, seed=seed, script=script, how=kind)))
             continue
         nfrozen += 1
+        order = sorted(mit, key=lambda x: mit[x])
+        fcases.append(f'({n}%nat, [{"; ".join(ops)}], [{"; ".join(nl(outs[i]) for i in order)}])')
+        fmeta.append((kind, n, seed, script, [outs[i] for i in order]))
         for i, o in outs.items():
             if sorted(o) != list(range(n)):
                 failures.append(dict(kind='history', summary=f'{kind} over reshuffle n={n} seed={seed} next()-script {script}: iterator {i} yielded {o}, not a permutation of range({n})',
@@ -273,11 +298,16 @@ def run(tier):
         fh.write(HEADER)
         fh.write('Definition rcases : list rcase := [\n' + ';\n'.join(rcases) + '\n].\n')
         fh.write('Definition lcases : list lcase := [\n' + ';\n'.join(lcases) + '\n].\n')
-        fh.write('Eval vm_compute in (bad rcase_ok 0 rcases).\nEval vm_compute in (bad lcase_ok 0 lcases).\n')
+        fh.write('Definition fcases : list fcase := [\n' + ';\n'.join(fcases) + '\n].\n')
+        fh.write('Eval vm_compute in (bad rcase_ok 0 rcases).\nEval vm_compute in (bad lcase_ok 0 lcases).\nEval vm_compute in (fbad 0 fcases).\n')
     out = common.run_case_files([f])[f]
     parts = re.split(r'\n\s*=\s', '\n' + out)
     rb = [int(x) for x in re.findall(r'\d+', parts[1].split(':')[0])]
     lb = [int(x) for x in re.findall(r'\d+', parts[2].split(':')[0])]
+    for i in [int(x) for x in re.findall(r'\d+', parts[3].split(':')[0])]:
+        m = fmeta[i]
+        failures.append(dict(kind='history', summary=f'frozen copies: model and implementation disagree on {m[0]} n={m[1]} seed={m[2]} script={m[3]} impl={m[4]}',
+                             config=dict(kind='frozen', n=m[1], seed=m[2], script=m[3], how=m[0])))
     for i in rb:
         failures.append(dict(kind='history', summary=f'reshuffle: model and implementation disagree on n={rmeta[i][0]} script={rmeta[i][1]} impl={rmeta[i][2]}',
                              config=dict(kind='reshuffle', n=rmeta[i][0], script=rmeta[i][1])))
